@@ -147,7 +147,10 @@ def gen_pq(rng, tier):
             ops.append([rng.choice(["score", "len", "empty"]), item])
     return {"kind": "pq", "domain": domain, "ops": ops,
             "knobs": {"width": width, "shape": shape, "mix": mix, "bias": target_bias,
-                      "score_arg": rng.choice(["tuple", "tuple", "tuple", "list", "iter", "gen"])}}
+                      "score_arg": rng.choice(["tuple", "tuple", "tuple", "list", "iter", "gen"]),
+                      # Observation is not free: a lookup after every operation resets whatever a lookup caches. A third of
+                      # the histories are observed only through their own operations (and the final drain).
+                      "observe": rng.choice(["full", "full", "sparse"])}}
 
 
 def gen_cf(rng, tier):
@@ -229,6 +232,9 @@ def run_pq(case, log, stats):
     how = case.get("knobs", {}).get("score_arg", "tuple")
     if how != "tuple":
         stats.inc("pq_histories_score_arg_" + how)
+    sparse = case.get("knobs", {}).get("observe") == "sparse"
+    if sparse:
+        stats.inc("pq_histories_sparse_observation")
     pq = PriorityQueue()
     model = {}
     domain = list(case["domain"])
@@ -242,6 +248,8 @@ def run_pq(case, log, stats):
             return violation("pq-len", "after op %d (%s): len(queue)=%d, model has %d items" % (step, opname, n, len(model)), "pq-len")
         if pq.is_empty() != (len(model) == 0):
             return violation("pq-empty", "after op %d (%s): is_empty()=%r but model has %d items" % (step, opname, pq.is_empty(), len(model)), "pq-empty")
+        if sparse:
+            return None
         for it in domain + probe_extra:
             got = pq.get_score_by_item(it)
             want = ext_score(model[it]) if it in model else None
@@ -311,6 +319,10 @@ def run_pq(case, log, stats):
             got = pq.get_score_by_item(op[1])
             log.add("score", got)
             stats.inc("op_lookup")
+            want = ext_score(model[op[1]]) if op[1] in model else None
+            if got != want:
+                viol.append(violation("pq-score", "op %d: get_score_by_item(%d)=%r, model says %r" % (step, op[1], got, want), "pq-score"))
+                break
         elif name == "len":
             log.add("len", len(pq))
             stats.inc("op_lookup")
